@@ -383,3 +383,76 @@ def replay(ctx, rep):
     bad = o != so
     print('REPRODUCED' if bad else 'not reproduced')
     return 1 if bad else 0
+
+
+def redeclared_scenarios(ctx, out):
+    """The declaration is the one in force when the collection comes into being: a feature used by some objects,
+    then re-declared (unique / ordered edited on the feature), then used by a NEW object: the new object's
+    collection follows the current declaration for a random operation sequence (list oracle)."""
+    common.use_repo()
+    from pyecore.ecore import EClass, EAttribute, EReference, EInt
+    rng = common.rng_for(ctx.seed, 'C04:redeclared')
+    n = 60 if ctx.tier != 'thorough' else 1500
+    steps = 0
+    for it in range(n):
+        kind = rng.choice(['attr', 'ref'])
+        A, B = EClass('A'), EClass('B')
+        o1, u1 = rng.random() < 0.5, rng.random() < 0.5
+        feat = (EAttribute('f', EInt, upper=-1, ordered=o1, unique=u1) if kind == 'attr'
+                else EReference('f', B, upper=-1, ordered=o1, unique=u1))
+        A.eStructuralFeatures.append(feat)
+        univ = [10, 20, -1, 30] if kind == 'attr' else [1, 2, 3, 4]
+        objs = [B() for _ in univ] if kind == 'ref' else None
+        hist = [['declare', kind, o1, u1]]
+        unique = u1
+        for phase in range(rng.randrange(2, 4)):
+            impl = Impl(A, B, feat, kind, univ, objs)      # a NEW object, its collection created now
+            L = []
+            bad = False
+            for _ in range(rng.randrange(1, 7)):
+                op = rng.choice(all_ops(univ, len(L), unique, False))
+                hist.append(['op'] + [list(x) if isinstance(x, (list, tuple)) else x for x in op])
+                r = impl.apply(op)
+                sr = spec_apply(L, op, unique)
+                o, so = impl.obs(), spec_obs(L, univ)
+                steps += 1
+                clause = None
+                if (r[0] == 0) != (sr[0] == 'ok'):
+                    clause = 'outcome'
+                elif unique and len(set(o[1:1 + o[0]])) != o[0]:
+                    clause = 'duplicate'
+                elif o != so:
+                    clause = 'iteration-order' if o[:1 + o[0]] != so[:1 + so[0]] else 'index=position'
+                if clause:
+                    sig = {'property': 'C04', 'clause': clause + '-after-redeclaration', 'culprit': op[0],
+                           'qualifiers': [], 'shape': {'kind': kind, 'unique': unique}}
+                    out.fail(sig, f'new object of a feature re-declared unique={unique}: impl {o} vs list {so}',
+                             {'scenario': 'redeclared', 'seed': ctx.seed, 'tier': ctx.tier, 'history': hist})
+                    bad = True
+                    break
+            if bad:
+                break
+            # edit the declaration
+            which = rng.choice(['unique', 'ordered', 'both'])
+            if which in ('unique', 'both'):
+                unique = not unique
+                feat.unique = unique
+            if which in ('ordered', 'both'):
+                feat.ordered = not feat.ordered
+            hist.append(['redeclare', feat.ordered, feat.unique])
+    out.coverage['redeclared_steps_checked'] = steps
+
+
+_run0 = run
+_replay0 = replay
+
+
+def run(ctx, out):   # noqa: F811
+    _run0(ctx, out)
+    redeclared_scenarios(ctx, out)
+
+
+def replay(ctx, rep):   # noqa: F811
+    if rep.get('case', {}).get('scenario'):
+        return common.scenario_replay(ctx, rep, {'redeclared': redeclared_scenarios})
+    return _replay0(ctx, rep)
